@@ -16,6 +16,7 @@ import (
 	"context"
 	"errors"
 	"fmt"
+	"io"
 	"sort"
 	"strconv"
 	"strings"
@@ -41,6 +42,7 @@ type c04Res struct {
 type c04Exch struct {
 	kind, code, tok, path, salt, length int
 	obs                                 int // -1 = none
+	dl                                  int // > 0: the application gives the request a context with this timeout (seconds of virtual time)
 }
 type c04Cfg struct {
 	szxA, maxA, szxB, maxB int
@@ -54,6 +56,11 @@ type c04Cfg struct {
 	// split: the peer A runs the transfer of every token in a BlockWise of its own (a peer is free to use any
 	// tokens at the same time; B - one BlockWise, one connection - is what is examined)
 	lazy, split bool
+	// page > 0: the applications supply every body (request bodies, representations) as an io.ReadSeeker
+	// that keeps its data in pages of that many bytes - one Read never crosses a page boundary, so it may
+	// return fewer bytes than asked for with a nil error, as the io.Reader contract allows (Blockwise/Reader.v
+	// proves the model independent of how a reader cuts its data: not part of the Coq configuration)
+	page int
 }
 type c04Ev struct {
 	op  byte // S D U X R B T E, and virtual time: A (arg seconds pass, nothing is swept) W (CheckExpirations now at side arg)
@@ -184,12 +191,75 @@ type c04World struct {
 	vers    map[int]int
 	pending []*c04Pending
 	fresh   map[string]int64
+	aged    time.Duration // virtual time that has passed ('A' events)
 	// collected while one event runs
 	curDeliv  []*c04PM
 	curErr    int
 	curDone   []*c04Pending
 	curResp   map[int]*pool.Message
 	blockSeen bool
+}
+
+// c04Ctx: the context of a request the application started with context.WithTimeout(d), under the virtual
+// clock: 'A' events move what the caches hold into the past (VerifShiftDeadlines), so a deadline read NOW is
+// the real instant start+d moved back by the virtual time that has passed since the start. It never fires
+// (the harness ends a Do by its 'T' event).
+type c04Ctx struct {
+	w           *c04World
+	base        time.Time
+	agedAtStart time.Duration
+}
+
+func (c *c04Ctx) Deadline() (time.Time, bool) { return c.base.Add(-(c.w.aged - c.agedAtStart)), true }
+func (c *c04Ctx) Done() <-chan struct{}       { return nil }
+func (c *c04Ctx) Err() error                  { return nil }
+func (c *c04Ctx) Value(any) any               { return nil }
+
+// c04Paged: an io.ReadSeeker over data kept in fixed-size pages; a Read stops at the page boundary
+type c04Paged struct {
+	data []byte
+	page int
+	pos  int64
+}
+
+func (p *c04Paged) Read(b []byte) (int, error) {
+	if p.pos >= int64(len(p.data)) {
+		return 0, io.EOF
+	}
+	end := (p.pos/int64(p.page) + 1) * int64(p.page)
+	if end > int64(len(p.data)) {
+		end = int64(len(p.data))
+	}
+	n := copy(b, p.data[p.pos:end])
+	p.pos += int64(n)
+	return n, nil
+}
+
+func (p *c04Paged) Seek(offset int64, whence int) (int64, error) {
+	var abs int64
+	switch whence {
+	case io.SeekStart:
+		abs = offset
+	case io.SeekCurrent:
+		abs = p.pos + offset
+	case io.SeekEnd:
+		abs = int64(len(p.data)) + offset
+	default:
+		return 0, errors.New("invalid whence")
+	}
+	if abs < 0 {
+		return 0, errors.New("negative position")
+	}
+	p.pos = abs
+	return abs, nil
+}
+
+// body: how an application hands a body to the library
+func (w *c04World) body(data []byte) io.ReadSeeker {
+	if w.cfg.page > 0 {
+		return &c04Paged{data: data, page: w.cfg.page}
+	}
+	return bytes.NewReader(data)
 }
 
 func newC04World(cfg *c04Cfg) *c04World {
@@ -447,7 +517,7 @@ func (w *c04World) appB(rw *responsewriter.ResponseWriter[*c04Client], r *pool.M
 	if res.etag {
 		opts = append(opts, message.Option{ID: message.ETag, Value: []byte{byte(v + 1)}})
 	}
-	_ = rw.SetResponse(c04RespCode(r.Code()), message.MediaType(res.cf), bytes.NewReader(res.body(v)), opts...)
+	_ = rw.SetResponse(c04RespCode(r.Code()), message.MediaType(res.cf), w.body(res.body(v)), opts...)
 }
 
 // application of A: consumes; a pending Do waiting for this token gets its response
@@ -559,12 +629,16 @@ func (w *c04World) arrive(f *c04Flight) *c04Obs {
 }
 
 func (w *c04World) request(x c04Exch) *pool.Message {
-	m := pool.NewMessage(context.Background())
+	var ctx context.Context = context.Background()
+	if x.dl > 0 {
+		ctx = &c04Ctx{w: w, base: time.Now().Add(time.Duration(x.dl) * time.Second), agedAtStart: w.aged}
+	}
+	m := pool.NewMessage(ctx)
 	m.SetCode(codes.Code(x.code))
 	m.SetToken(c04TokBytes(x.tok))
 	m.SetOptionBytes(message.URIPath, []byte{byte(x.path)})
 	if x.length > 0 {
-		m.SetBody(bytes.NewReader(genBody(x.salt, x.length)))
+		m.SetBody(w.body(genBody(x.salt, x.length)))
 	}
 	return m
 }
@@ -585,7 +659,7 @@ func (w *c04World) notification(x c04Exch) *pool.Message {
 		m.SetObserve(uint32(x.obs))
 	}
 	m.SetContentFormat(message.MediaType(res.cf))
-	m.SetBody(bytes.NewReader(res.body(v)))
+	m.SetBody(w.body(res.body(v)))
 	return m
 }
 
@@ -745,6 +819,7 @@ func (w *c04World) apply(e c04Ev) *c04Obs {
 		// virtual time: instead of waiting, the deadlines of everything both endpoints hold move into the past
 		d := time.Duration(e.arg) * time.Second
 		if d > 0 {
+			w.aged += d
 			for _, s := range w.as {
 				s.bw.VerifShiftDeadlines(d)
 			}
@@ -831,9 +906,16 @@ func c04Desc(c *c04Cfg, evs []c04Ev) string {
 	if c.split {
 		head += "s"
 	}
-	fmt.Fprintf(&sb, "%s %d %d %d %d |", head, c.szxA, c.maxA, c.szxB, c.maxB)
+	fmt.Fprintf(&sb, "%s %d %d %d %d", head, c.szxA, c.maxA, c.szxB, c.maxB)
+	if c.page > 0 {
+		fmt.Fprintf(&sb, " pg%d", c.page)
+	}
+	sb.WriteString(" |")
 	for _, x := range c.exch {
 		fmt.Fprintf(&sb, " x%d,%d,%d,%d,%d,%d,%d", x.kind, x.code, x.tok, x.path, x.salt, x.length, x.obs)
+		if x.dl > 0 {
+			fmt.Fprintf(&sb, ",%d", x.dl)
+		}
 	}
 	sb.WriteString(" |")
 	for _, r := range c.res {
@@ -868,10 +950,16 @@ func c04ParseDesc(s string) (*c04Cfg, []c04Ev, error) {
 		return r
 	}
 	h := strings.Fields(parts[0])
-	if len(h) != 5 {
+	if len(h) != 5 && len(h) != 6 {
 		return nil, nil, fmt.Errorf("bad descriptor head")
 	}
 	c := &c04Cfg{}
+	if len(h) == 6 {
+		if !strings.HasPrefix(h[5], "pg") {
+			return nil, nil, fmt.Errorf("bad descriptor head")
+		}
+		c.page, _ = strconv.Atoi(h[5][2:])
+	}
 	switch h[0] {
 	case "c04":
 	case "c04q":
@@ -889,7 +977,14 @@ func c04ParseDesc(s string) (*c04Cfg, []c04Ev, error) {
 	c.maxB, _ = strconv.Atoi(h[4])
 	for _, f := range strings.Fields(parts[1]) {
 		v := ints(f[1:])
-		c.exch = append(c.exch, c04Exch{v[0], v[1], v[2], v[3], v[4], v[5], v[6]})
+		if len(v) < 7 {
+			return nil, nil, fmt.Errorf("bad exchange in descriptor")
+		}
+		x := c04Exch{kind: v[0], code: v[1], tok: v[2], path: v[3], salt: v[4], length: v[5], obs: v[6]}
+		if len(v) > 7 {
+			x.dl = v[7]
+		}
+		c.exch = append(c.exch, x)
 	}
 	for _, f := range strings.Fields(parts[2]) {
 		v := ints(f[1:])
@@ -1156,6 +1251,19 @@ func c04Emit(e *Emitter, cfg *c04Cfg, r *c04Result, buckets ...string) {
 		}
 	}
 	coq := fmt.Sprintf("Case %s\n   [%s]\n   [%s]", cfg.coq(), strings.Join(es, "; "), strings.Join(os, ";\n    "))
+	var dls []string
+	for i, x := range cfg.exch {
+		if x.dl > 0 {
+			dls = append(dls, fmt.Sprintf("(%d%%nat,%d)", i, x.dl))
+		}
+	}
+	if len(dls) > 0 {
+		coq = fmt.Sprintf("CaseD %s [%s]\n   [%s]\n   [%s]", cfg.coq(), strings.Join(dls, ";"), strings.Join(es, "; "), strings.Join(os, ";\n    "))
+		buckets = append(buckets, "request-deadline")
+	}
+	if cfg.page > 0 {
+		buckets = append(buckets, "paged-bodies")
+	}
 	if r.completed > 0 {
 		buckets = append(buckets, "some-call-returned-ok")
 	} else {
@@ -1195,27 +1303,27 @@ func c04Base(flavour, szxA, maxA, szxB, maxB, n int) *c04Cfg {
 	c := &c04Cfg{szxA: szxA, maxA: maxA, szxB: szxB, maxB: maxB}
 	switch flavour {
 	case 0:
-		c.exch = []c04Exch{{0, 2, 7, 0, 5, n, -1}}
+		c.exch = []c04Exch{{0, 2, 7, 0, 5, n, -1, 0}}
 		c.res = []c04Res{{11, 5, false, 42}}
 	case 1:
-		c.exch = []c04Exch{{0, 1, 8, 0, 0, 0, -1}}
+		c.exch = []c04Exch{{0, 1, 8, 0, 0, 0, -1, 0}}
 		c.res = []c04Res{{13, n, true, 50}}
 	case 2:
-		c.exch = []c04Exch{{0, 3, 9, 0, 6, n, -1}}
+		c.exch = []c04Exch{{0, 3, 9, 0, 6, n, -1, 0}}
 		c.res = []c04Res{{17, n, true, 60}}
 	case 3:
-		c.exch = []c04Exch{{1, 2, 10, 0, 9, n, -1}}
+		c.exch = []c04Exch{{1, 2, 10, 0, 9, n, -1, 0}}
 		c.res = []c04Res{{19, 3, false, 42}}
 	case 4:
-		c.exch = []c04Exch{{2, 69, 11, 0, 0, 0, 12}}
+		c.exch = []c04Exch{{2, 69, 11, 0, 0, 0, 12, 0}}
 		c.res = []c04Res{{23, n, true, 50}}
 		c.outside = [][2]int{{11, 0}}
 	case 5:
-		c.exch = []c04Exch{{2, 69, 12, 0, 0, 0, -1}}
+		c.exch = []c04Exch{{2, 69, 12, 0, 0, 0, -1, 0}}
 		c.res = []c04Res{{29, n, true, 50}}
 		c.outside = [][2]int{{12, 0}}
 	default:
-		c.exch = []c04Exch{{2, 69, 13, 0, 0, 0, 5}}
+		c.exch = []c04Exch{{2, 69, 13, 0, 0, 0, 5, 0}}
 		c.res = []c04Res{{31, n, false, 50}}
 	}
 	return c
@@ -1227,7 +1335,7 @@ func runC04(a runArgs) error {
 	e := NewEmitter("C04", "Blockwise.Run")
 	e.ShardSize = 260
 	e.MaxBytes = 300000
-	e.Rule = "a case = configuration (SZX/max message size of both sides, exchanges, resources) + explicit event script (start/deliver/dup/drop/replay/bump/timeout/expire) run on two real blockwise.BlockWise instances joined by a marshalling relay (c04q: the relay queues message objects and serialises them when the network first touches them; c04s: peer A runs each token in a BlockWise of its own); distinct = distinct configuration+script; non-trivial = at least one wire message carried a Block1/Block2 option (a block-wise transfer actually took place)."
+	e.Rule = "a case = configuration (SZX/max message size of both sides, exchanges - a Do optionally with a request context deadline -, resources) + explicit event script (start/deliver/dup/drop/replay/bump/timeout/expire/age/sweep) run on two real blockwise.BlockWise instances joined by a marshalling relay (c04q: the relay queues message objects and serialises them when the network first touches them; c04s: peer A runs each token in a BlockWise of its own; pg<n>: the applications supply every body through an io.ReadSeeker with pages of n bytes, whose Read stops at page boundaries); distinct = distinct configuration+script; non-trivial = at least one wire message carried a Block1/Block2 option (a block-wise transfer actually took place)."
 	if err := c04CheckTokTable(); err != nil {
 		return err
 	}
@@ -1440,21 +1548,21 @@ func runC04(a runArgs) error {
 			etag := true
 			switch g.Intn(6) {
 			case 0:
-				cfg.exch = append(cfg.exch, c04Exch{0, 2, tok, j, 40 + 7*j, n, -1})
+				cfg.exch = append(cfg.exch, c04Exch{0, 2, tok, j, 40 + 7*j, n, -1, 0})
 				rn = g.Intn(s)
 				etag = g.Bool()
 			case 1:
-				cfg.exch = append(cfg.exch, c04Exch{0, 1, tok, j, 0, 0, -1})
+				cfg.exch = append(cfg.exch, c04Exch{0, 1, tok, j, 0, 0, -1, 0})
 			case 2:
-				cfg.exch = append(cfg.exch, c04Exch{0, 3, tok, j, 40 + 7*j, n, -1})
+				cfg.exch = append(cfg.exch, c04Exch{0, 3, tok, j, 40 + 7*j, n, -1, 0})
 			case 3:
-				cfg.exch = append(cfg.exch, c04Exch{1, 2 + g.Intn(2), tok, j, 40 + 7*j, n, -1})
+				cfg.exch = append(cfg.exch, c04Exch{1, 2 + g.Intn(2), tok, j, 40 + 7*j, n, -1, 0})
 				rn = g.Intn(s)
 			case 4:
-				cfg.exch = append(cfg.exch, c04Exch{2, 69, tok, j, 0, 0, 3 + j})
+				cfg.exch = append(cfg.exch, c04Exch{2, 69, tok, j, 0, 0, 3 + j, 0})
 				cfg.outside = append(cfg.outside, [2]int{tok, j})
 			default:
-				cfg.exch = append(cfg.exch, c04Exch{2, 69, tok, j, 0, 0, -1})
+				cfg.exch = append(cfg.exch, c04Exch{2, 69, tok, j, 0, 0, -1, 0})
 				if g.Chance(70) {
 					cfg.outside = append(cfg.outside, [2]int{tok, j})
 				}
@@ -1473,6 +1581,11 @@ func runC04(a runArgs) error {
 	// concurrent transfers with different tokens never mix: similar-but-distinct tokens, queued wire
 	c04SimilarTokensFamily(e, thorough)
 	c04QueuedWireFamily(e, rng.Fork(), thorough)
+	// the clock and the shape of the script: request deadlines (slow, loss-free exchanges), bodies supplied
+	// through readers with short reads in loss-free runs beyond the livelock bound
+	c04DeadlineFamily(e, thorough)
+	c04DeadlineRandom(e, NewRng(a.seed*1000003+17), thorough)
+	c04PagedFamily(e, thorough)
 	return e.Flush(a.out)
 }
 
@@ -1487,6 +1600,17 @@ var c04Canonical = []string{
 	"c04 0 1152 0 1152 | x0,2,7,0,5,5,-1 | r11,40,0,42 | | S0 D0 D0 D0 D0 D0 D0 S0 R3 D1",
 	// finding 3, witness 2: one Do; the resource changes, the first request is duplicated
 	"c04 0 1152 0 1152 | x0,2,7,0,5,5,-1 | r11,20,1,42 | | S0 D0 D0 D0 B0 R0 R2 D2 D2",
+	// known class do-returned-continue-after-its-state-was-lost (notes/C04.md, O7): an upload without a request
+	// deadline is slower than the transfer timeout: the element Do stored has expired, the next 2.31 Continue is
+	// handed to the application and the Do returns it without error
+	"c04 0 1152 0 1152 | x0,2,7,0,5,64,-1 | r11,5,0,42 | | S0 D0 D0 D0 D0 A3700 D0 D0 T0 E0 E1",
+	// ... the same upload inside a request deadline of 9000 s goes on (the slow link of seeded regression C04-6)
+	"c04 0 1152 0 1152 | x0,2,7,0,5,64,-1,9000 | r11,5,0,42 | | S0 D0 D0 D0 D0 A3700 D0 D0 D0 D0 D0 D0 T0 E0 E1",
+	// ... O2 (BERT upload of 1024 < n < buffer: the sender fails on the first 2.31) followed by a duplicate of that
+	// 2.31: the element is gone, the duplicate is handed over and the Do returns it (class 11 as well)
+	"c04 7 2048 7 2048 | x0,2,7,0,5,1500,-1 | r11,5,0,42 | | S0 D0 U0 D0 T0 E0 E1",
+	// a download of a body supplied through a paged reader (pages of 100 bytes, blocks of 16), loss-free, 100 deliveries
+	"c04 0 1152 0 1152 pg100 | x0,1,8,0,0,0,-1 | r13,300,1,50 | | S0" + strings.Repeat(" D0", 100),
 }
 
 // c04RestartFamily: histories in which the reassembly of a block-wise RESPONSE has to start again at
@@ -1527,7 +1651,7 @@ func c04RestartFamily(e *Emitter, thorough bool) {
 	}
 	for _, b := range bases {
 		cfg := &c04Cfg{szxA: 0, maxA: 1152, szxB: 0, maxB: 1152}
-		cfg.exch = []c04Exch{{0, b.code, 7, 0, 5, b.reqLen, -1}}
+		cfg.exch = []c04Exch{{0, b.code, 7, 0, 5, b.reqLen, -1, 0}}
 		cfg.res = []c04Res{{11, b.resLen, b.etag, 42}}
 		name := fmt.Sprintf("restart-code%d-req%d-res%d", b.code, b.reqLen, b.resLen)
 		// the fault-free run: its length and its wire history
@@ -1619,7 +1743,7 @@ func c04ExpiryFamily(e *Emitter, thorough bool) {
 	}
 	for _, b := range bases {
 		cfg := &c04Cfg{szxA: b.szxA, maxA: 1152, szxB: b.szxB, maxB: 1152}
-		cfg.exch = []c04Exch{{0, b.code, 7, 0, 5, b.reqLen, -1}}
+		cfg.exch = []c04Exch{{0, b.code, 7, 0, 5, b.reqLen, -1, 0}}
 		cfg.res = []c04Res{{11, b.resLen, b.etag, 42}}
 		ff := c04Run(cfg, c04Scripted(cfg, nil))
 		nd := 0
